@@ -5,6 +5,7 @@ package main
 
 import (
 	"bufio"
+	"bytes"
 	"crypto/sha256"
 	"encoding/json"
 	"flag"
@@ -107,17 +108,48 @@ func overlayFor(h *Harness, hdir string) (map[string][]byte, map[string]string, 
 	if err := add(filepath.Join(verifDir, "harness/nd/nd.go"), filepath.Join(repoDir, "internal/zzverif/nd/nd.go")); err != nil {
 		return nil, nil, err
 	}
-	for f, rel := range h.Files {
-		src := filepath.Join(hdir, f)
-		if filepath.IsAbs(f) {
-			src = f
-		}
-		if err := add(src, filepath.Join(repoDir, rel)); err != nil {
-			return nil, nil, err
+	for f, rels := range h.Files {
+		for _, rel := range strings.Split(rels, ";") { // one harness source may be injected at several places
+			src := filepath.Join(hdir, f)
+			if filepath.IsAbs(f) {
+				src = f
+			}
+			// "path#package=name": the same harness source instantiated in another package
+			if k := strings.Index(rel, "#package="); k >= 0 {
+				pkg := rel[k+len("#package="):]
+				rel = rel[:k]
+				b, err := os.ReadFile(src)
+				if err != nil {
+					return nil, nil, err
+				}
+				if loc := pkgClauseRe.FindIndex(b); loc != nil { // the first one: the file's own clause
+					b = append(append(append([]byte{}, b[:loc[0]]...), []byte("package "+pkg)...), b[loc[1]:]...)
+				}
+				sum := sha256.Sum256(append([]byte(rel), b...))
+				dir := filepath.Join(scratchRoot(), "pkgrw")
+				os.MkdirAll(dir, 0o755)
+				tmp := filepath.Join(dir, fmt.Sprintf("%x.go", sum[:8]))
+				if old, err := os.ReadFile(tmp); err != nil || !bytes.Equal(old, b) {
+					// several workers may materialise the same file: write-then-rename
+					t2 := fmt.Sprintf("%s.%d", tmp, os.Getpid())
+					if err := os.WriteFile(t2, b, 0o644); err != nil {
+						return nil, nil, err
+					}
+					if err := os.Rename(t2, tmp); err != nil {
+						return nil, nil, err
+					}
+				}
+				src = tmp
+			}
+			if err := add(src, filepath.Join(repoDir, rel)); err != nil {
+				return nil, nil, err
+			}
 		}
 	}
 	return ov, paths, nil
 }
+
+var pkgClauseRe = regexp.MustCompile(`(?m)^package [A-Za-z_]+`)
 
 func loadProgram(h *Harness, hdir string) (*ssa.Program, []*ssa.Package, map[string]string, error) {
 	ov, _, err := overlayFor(h, hdir)
